@@ -660,6 +660,8 @@ def run_instance(inst, tier='quick', seed=0, replay_dir=None, prefix=None, first
                                           'no_input': False, 'has_uf': False, 'backend': 'native',
                                           'exception': payload.get('native_outcome') if out and out[0] == 'exc' else None})
                 break
+    except EngineGap:
+        pass                 # reported once by the symbolic run below (undecided)
     except Exception as e:  # noqa
         rep['error'] = (rep.get('error') or '') + ''.join(traceback.format_exception(type(e), e, e.__traceback__))[-2000:]
     if any(v.get('kind') == 'bounded' for v in rep['violations']):
